@@ -49,6 +49,12 @@ func (s *c10Server) dial(ctx context.Context) (net.Conn, error) {
 	}
 	c := &c10Conn{srv: s, idx: len(s.conns)}
 	s.conns = append(s.conns, c)
+	if c.faulty(5) {
+		// the server speaks first: a response arrives before any request
+		early := &kmip.ResponseMessage{}
+		early.Header.ClientCorrelationValue = "unsolicited"
+		c.pending = append(c.pending, early)
+	}
 	return c, nil
 }
 
@@ -60,14 +66,17 @@ func (s *c10Server) release() {
 	}
 }
 
-func (c *c10Conn) faulty(op int) bool { return c.srv.faultConn == c.idx && c.srv.faultOp == op }
+// faultConn -2: the fault hits every connection
+func (c *c10Conn) faulty(op int) bool {
+	return (c.srv.faultConn == c.idx || c.srv.faultConn == -2) && c.srv.faultOp == op
+}
 
 func (c *c10Conn) VerifSendMsg(msg any) error {
 	verifYield()
 	if c.closed {
 		return net.ErrClosed
 	}
-	if c.peerReset || c.faulty(1) {
+	if c.peerReset || c.faulty(1) || c.faulty(5) {
 		return errC10Reset
 	}
 	req := msg.(*kmip.RequestMessage)
@@ -282,4 +291,35 @@ func VerifC11_CloseAfterFailedDial() {
 	_ = c.Close() // must not panic
 	verifQuiesce()
 	verifAssert("no goroutine is left behind", verifLiveGoroutines() == 0)
+}
+
+// VerifC11_AlwaysFailing: every connection accepts the request and then ends
+// without replying (kind 2: end of stream, 3: reset): the call returns an error
+// after a bounded number of transmissions, and recovers once the server is back.
+func VerifC11_AlwaysFailing(kind int) {
+	s := &c10Server{dialFail: -1, faultConn: -2, faultOp: kind}
+	c := c10Client(s)
+	_, err := c.Roundtrip(context.Background(), c10Req("a"))
+	verifAssert("the call gives up with an error", err != nil)
+	verifAssert("a single call transmits its request at most four times", c10Count(s, "a") <= 4)
+	s.faultConn = -1
+	resp, err2 := c.Roundtrip(context.Background(), c10Req("b"))
+	verifAssert("recovers once the server answers again", err2 == nil && resp != nil && resp.Header.ClientCorrelationValue == "b")
+	c10Finish(c, s)
+}
+
+// VerifC11_Unsolicited: the server sends a message before any request and the
+// client's first write fails: the connection is abandoned while its read loop
+// holds a response nobody waits for; the call is retried on a fresh connection.
+func VerifC11_Unsolicited() {
+	s := &c10Server{dialFail: -1, faultConn: 0, faultOp: 5}
+	c := c10Client(s)
+	resp, err := c.Roundtrip(context.Background(), c10Req("a"))
+	if err == nil {
+		verifAssert("own response or an error, never the unsolicited message", resp != nil && resp.Header.ClientCorrelationValue == "a")
+	}
+	s.faultConn = -1
+	resp2, err2 := c.Roundtrip(context.Background(), c10Req("b"))
+	verifAssert("next call succeeds", err2 == nil && resp2 != nil && resp2.Header.ClientCorrelationValue == "b")
+	c10Finish(c, s)
 }
